@@ -40,6 +40,7 @@ META = dict(
 
 OBLIGATIONS = [
     "C12_self_consistent", "C12_tie_end_of_fit", "C12_roundtrip_partial", "C12_roundtrip_exact", "C12_idempotent_partial",
+    "C12_idempotent_after_one",
     "C12_instance_name_refuted", "C12_instance_name_case_refuted", "C12_univariate_default_refuted",
     "C12_scalar_noise_shape_refuted", "C12_float64_refuted",
     # composition with C01 (coq/theories/Compose/): the store hypotheses discharged on the real State model
@@ -1250,9 +1251,12 @@ def _check(run: Run, thorough: bool, version: str, tmp: Path):
         f32 = float(torch.tensor([v]).item())     # torch.tensor(list of python floats) -> float32
         r_cases.append(f"({cq(v)}, {cq(f32)})")
         run.case(("r32", v), nontrivial=(f32 != v))
+        # casting twice is casting once (hypothesis cast_idem_on of C12_idempotent_after_one): a float32 value is a fixed point
+        r_cases.append(f"({cq(f32)}, {cq(f32)})")
+        run.case(("r32-fixed-point", f32), nontrivial=(f32 != v))
     bad = run.vm_bad_indices("r32", hdr, "Q * Q", r_cases, "r32_case_ok")
     for i in bad or []:
-        run.fail("tie:float32-rounding", "r32 (model of torch.tensor's float32 cast) differs from torch", dict(value=vals[i]),
+        run.fail("tie:float32-rounding", "r32 (model of torch.tensor's float32 cast) differs from torch", dict(value=vals[i // 2], fixed_point_case=bool(i % 2)),
                  kind="broken-correspondence")
 
 
